@@ -101,6 +101,14 @@ for _t, _k in (("quick", 40), ("thorough", 700)):  # mapping forms of CustomDOE 
     MIN_COUNTERS[_t]["custom_designs_with_shuffled_keys:dict2d"] = _k
     MIN_COUNTERS[_t]["custom_designs_with_shuffled_keys:listdict"] = _k
     MIN_COUNTERS[_t]["custom_designs_with_shuffled_keys_and_mixed_sizes"] = _k
+# second generations on a design space that was sampled and then edited (about half of seed 0; thorough scaled by rounds)
+for _t, _f in (("quick", 1), ("thorough", 17)):
+    MIN_COUNTERS[_t]["second_generations_after_edit"] = 2000 * _f
+    MIN_COUNTERS[_t]["second_generations_after_edit:int_norm=on"] = 1000 * _f
+    MIN_COUNTERS[_t]["second_generations_after_edit:int_norm=off"] = 1000 * _f
+    MIN_COUNTERS[_t]["edit:ub-tighten"] = 650 * _f
+    for _k in ("ub-widen", "lb-tighten", "lb-widen", "add", "remove", "rename", "toggle", "value"):
+        MIN_COUNTERS[_t][f"edit:{_k}"] = 280 * _f
 for _a in ALGOS:  # every algorithm of the factory must have produced designs
     MIN_COUNTERS["quick"][f"designs:{_a}"] = 190
     MIN_COUNTERS["thorough"][f"designs:{_a}"] = 3000
@@ -497,6 +505,68 @@ def gen_settings(rng, algo, space):
     return st
 
 
+EDIT_OPS = ["ub-tighten", "ub-widen", "lb-tighten", "lb-widen", "ub-tighten", "add", "remove", "rename", "toggle",
+            "value"]
+
+
+def gen_history(rng, space0, flag_final, allow_add):
+    """Edits applied through the public API between a first and a second generation on ONE design space.
+
+    Returns (final space description, history); the final description is computed here, independently of gemseo.
+    """
+    space = [dict(v) for v in space0]
+    for v in space:
+        v.pop("value", None)
+    space0 = [dict(v) for v in space]
+    edits, flag = [], flag_final
+    ops = [EDIT_OPS[int(rng.integers(len(EDIT_OPS)))] for _ in range(int(rng.integers(1, 4)))]
+    ops.sort(key=lambda o: o == "value")  # values are set last so that later bound edits cannot invalidate them
+    for op in ops:
+        k = int(rng.integers(len(space)))
+        v = space[k]
+        lo, hi = np.array(v["lb"], dtype=float), np.array(v["ub"], dtype=float)
+        is_int = v["type"] == "integer"
+        if op in ("ub-tighten", "ub-widen", "lb-tighten", "lb-widen"):
+            f = float(rng.choice([0.25, 0.5, 0.8]) if op.endswith("tighten") else rng.choice([1.5, 3.0]))
+            width = (hi - lo) * f
+            if is_int:
+                width = np.round(width)
+            if op.startswith("ub"):
+                new = lo + width
+                v["ub"] = [float(x) for x in new]
+                edits.append({"op": "ub", "name": v["name"], "value": v["ub"], "kind": op})
+            else:
+                new = hi - width
+                v["lb"] = [float(x) for x in new]
+                edits.append({"op": "lb", "name": v["name"], "value": v["lb"], "kind": op})
+        elif op == "add" and allow_add and len(space) < 6:
+            top = max(max(w["ub"]) for w in space)
+            type_ = str(rng.choice(["float", "integer"]))
+            size = int(rng.choice([1, 2]))
+            lo_ = [float(math.ceil(top + 10 + 50 * i)) for i in range(size)]
+            hi_ = [x + (float(rng.choice([1, 3, 10])) if type_ == "integer" else _r(10 ** rng.uniform(-2, 1.5))) for x in lo_]
+            nv = {"name": f"new{len(edits)}", "size": size, "type": type_, "lb": lo_, "ub": hi_}
+            space.append(nv)
+            edits.append({"op": "add", "var": dict(nv), "kind": op})
+        elif op == "remove" and len(space) > 1:
+            edits.append({"op": "remove", "name": v["name"], "kind": op})
+            space.pop(k)
+        elif op == "rename":
+            new_name = v["name"] + "_r"
+            edits.append({"op": "rename", "name": v["name"], "new": new_name, "kind": op})
+            v["name"] = new_name
+        elif op == "toggle":
+            flag = not flag
+            edits.append({"op": "toggle", "kind": op})
+        elif op == "value":
+            vals = {w["name"]: w["lb"] for w in space}
+            for w in space:
+                w["value"] = list(w["lb"])
+            edits.append({"op": "value", "values": vals, "kind": op})
+    # ``flag`` was toggled backwards from the final value: it is the value the space starts with
+    return space, {"space0": space0, "flag0": bool(flag), "edits": edits}
+
+
 def gen_case(rng, algo):
     space = gen_space(rng, D_MAX.get(algo))
     if algo == "CustomDOE" and rng.random() < 0.8:
@@ -504,16 +574,67 @@ def gen_case(rng, algo):
             if len(space) > 1:
                 break
             space = gen_space(rng)
+    int_norm = bool(rng.random() < 0.25)
+    history = None
+    if rng.random() < 0.22:  # a second generation on a design space that was sampled, then edited
+        int_norm = bool(rng.random() < 0.5)
+        space, history = gen_history(rng, space, int_norm, allow_add=algo not in D_MAX)
+        if not history["edits"]:
+            history = None
     st = gen_settings(rng, algo, space)
     mode = "execute" if rng.random() < 0.3 else "compute"
-    return {"algo": algo, "space": space, "settings": st, "mode": mode, "int_norm": bool(rng.random() < 0.25),
+    case = {"algo": algo, "space": space, "settings": st, "mode": mode, "int_norm": int_norm,
             "warm": bool(rng.random() < 0.5)}
+    if history:
+        case["history"] = history
+    return case
 
 
 # --------------------------------------------------------------------------- materialisation
-def build_space(space, int_norm=False, warm=False):
+def apply_history(history):
+    """First generation on the initial space, then the edits through the public API; returns the edited space."""
+    ds = build_space(history["space0"], history["flag0"], warm=True)
+    fresh("MC").compute_doe(ds, n_samples=2)          # the first generation
+    for e in history["edits"]:
+        op = e["op"]
+        if op in ("ub", "lb"):
+            dt = np.int64 if ds.get_type(e["name"]) == "integer" else float
+            (ds.set_upper_bound if op == "ub" else ds.set_lower_bound)(e["name"], np.array(e["value"], dtype=dt))
+        elif op == "add":
+            _add_variable(ds, e["var"])
+        elif op == "remove":
+            ds.remove_variable(e["name"])
+        elif op == "rename":
+            ds.rename_variable(e["name"], e["new"])
+        elif op == "toggle":
+            ds.enable_integer_variables_normalization = not ds.enable_integer_variables_normalization
+        elif op == "value":
+            ds.set_current_value({k: np.array(v, dtype=np.int64 if ds.get_type(k) == "integer" else float)
+                                  for k, v in e["values"].items()})
+    return ds
+
+
+def _add_variable(ds, v):
+    is_int = v["type"] == "integer"
+    dt = np.int64 if is_int else float
+    kw = {}
+    if v.get("value") is not None:
+        kw["value"] = np.array(v["value"], dtype=dt)
+    if v["lb"] is not None:
+        kw["lower_bound"] = np.array(v["lb"], dtype=dt)
+    if v["ub"] is not None:
+        kw["upper_bound"] = np.array(v["ub"], dtype=dt)
+    ds.add_variable(v["name"], v["size"], type_=v["type"], **kw)
+
+
+def build_space(space, int_norm=False, warm=False, history=None):
     from gemseo.algos.design_space import DesignSpace
 
+    if history:
+        ds = apply_history(history)
+        if bool(ds.enable_integer_variables_normalization) != bool(int_norm):
+            raise RuntimeError("C14 harness: the history does not end with the recorded flag value")
+        return ds
     ds = DesignSpace()
     for v in space:
         is_int = v["type"] == "integer"
@@ -599,6 +720,14 @@ def sfeat(case):
     return "+".join(parts) or "defaults"
 
 
+def efeat(case):
+    """Feature of a second generation on an edited space (kept out of the count signatures: the documented count
+    does not depend on the history of the space)."""
+    if not case.get("history"):
+        return ""
+    return "+edited=" + "/".join(sorted({e["kind"] for e in case["history"]["edits"]}))
+
+
 def dfeat(d):
     return "d=1" if d == 1 else "d=2" if d == 2 else "d>2"
 
@@ -619,7 +748,7 @@ def case_signature(case, outcome):
     d = space_dim(case["space"])
     return (case["algo"], d, tuple(v["type"][0] + str(v["size"]) for v in case["space"]), sfeat(case),
             st.get("n_samples"), seed_kind(case), case["mode"], case["int_norm"], bool(case.get("warm")),
-            any("value" in v for v in case["space"]), outcome)
+            any("value" in v for v in case["space"]), efeat(case), outcome)
 
 
 # --------------------------------------------------------------------------- oracle
@@ -672,6 +801,7 @@ def run_case(case, rep, scratch):
     lb, ub, is_int = bounds_of(space)
     types = type_pattern(space)
     sf = sfeat(case)
+    sfe = sf + efeat(case)
     in_list = algo not in OUTSIDE_LIST
     mdl = model(algo, d, st)
     req = st.get("n_samples") or None
@@ -680,7 +810,7 @@ def run_case(case, rep, scratch):
     sk = seed_kind(case)
 
     # ---- first generation (instance A)
-    ds_a = build_space(space, flag0, warm)
+    ds_a = build_space(space, flag0, warm, case.get("history"))
     lib_a = fresh(algo)
     try:
         s_a = lib_a.compute_doe(ds_a, **materialize(case, scratch))
@@ -695,7 +825,7 @@ def run_case(case, rep, scratch):
                             {"algo": algo, "error": etype})
             return
         rep.case(case_signature(case, "exception"), nontrivial=False)
-        feat = sf
+        feat = sfe
         if algo == "CustomDOE":
             feat = (f"form={st['form']}:{'multi-variable' if len(space) > 1 else 'single-variable'}"
                     + (":keys=shuffled" if st.get("key_order") else ""))
@@ -714,6 +844,11 @@ def run_case(case, rep, scratch):
     rep.count(f"designs:{algo}")
     if types != "float":
         rep.count("designs_with_integer_variables")
+    if case.get("history"):
+        rep.count("second_generations_after_edit")
+        rep.count(f"second_generations_after_edit:int_norm={'on' if flag0 else 'off'}")
+        for kind in {e["kind"] for e in case["history"]["edits"]}:
+            rep.count(f"edit:{kind}")
     if algo == "CustomDOE":
         rep.count(f"custom_designs:{st['form']}")
         if st.get("key_order"):
@@ -764,7 +899,7 @@ def run_case(case, rep, scratch):
             elif algo in ("MorrisDOE", "OATDOE") and step > 0.5:
                 rep.observe(f"{algo}-relative-step-above-0.5-leaves-the-bounds", ex)
             else:
-                rep.violation(f"C14:{algo}:out-of-bounds:{types}:{sf}", "samples inside the bounds", case,
+                rep.violation(f"C14:{algo}:out-of-bounds:{types}:{sfe}", "samples inside the bounds", case,
                               observed=ex, expected={"lb": lb, "ub": ub})
         if is_int.any():
             rep.count("integer_rows_checked", n_got)
@@ -800,7 +935,7 @@ def run_case(case, rep, scratch):
             return None
 
     # ---- unit samples from a second fresh instance; image under the reference map
-    ds_b = build_space(space, flag0, warm)
+    ds_b = build_space(space, flag0, warm, case.get("history"))
     lib_b = fresh(algo)
     try:
         u_b = np.asarray(lib_b.compute_doe(ds_b, unit_sampling=True, **materialize(case, scratch)))
@@ -834,7 +969,7 @@ def run_case(case, rep, scratch):
         elif algo in ("MorrisDOE", "OATDOE") and st.get("step", 0.05) > 0.5:
             pass
         else:
-            rep.violation(f"C14:{algo}:unit-samples-outside-unit-cube:{sf}", "unit samples in [0,1]", case, observed=ex)
+            rep.violation(f"C14:{algo}:unit-samples-outside-unit-cube:{sfe}", "unit samples in [0,1]", case, observed=ex)
     if bool(ds_b.enable_integer_variables_normalization) != flag0:
         rep.violation(f"C14:{algo}:integer-normalization-flag-changed-by-unit-sampling", "flag restored", case,
                       observed=bool(ds_b.enable_integer_variables_normalization), expected=flag0)
@@ -843,7 +978,7 @@ def run_case(case, rep, scratch):
         rep.count("image_rows_checked", n_got)
         if bad is not None:
             # is it the map, or the reproducibility of the unit samples?
-            ds_c = build_space(space, flag0, warm)
+            ds_c = build_space(space, flag0, warm, case.get("history"))
             s_c = again(fresh(algo), ds_c, "fresh-instance")
             if s_c is None:
                 return
@@ -858,7 +993,7 @@ def run_case(case, rep, scratch):
 
     # ---- reproducibility
     rep.count("reproducibility_oracle_evaluations")
-    ds_c = build_space(space, flag0, warm)
+    ds_c = build_space(space, flag0, warm, case.get("history"))
     lib_c = fresh(algo)
     s_c = again(lib_c, ds_c, "fresh-instance")
     if s_c is None:
@@ -868,7 +1003,7 @@ def run_case(case, rep, scratch):
                       "same algorithm, settings and seed give the same samples", case, observed=s_c, expected=s_a)
     if sk != "default":
         s_a2 = again(lib_a, ds_a, "same-instance")
-        s_a3 = again(lib_a, build_space(space, flag0, warm), "same-instance")
+        s_a3 = again(lib_a, build_space(space, flag0, warm, case.get("history")), "same-instance")
         if s_a2 is None or s_a3 is None:
             return
         rep.count("same_instance_repeats_checked")
@@ -892,7 +1027,7 @@ def run_case(case, rep, scratch):
 
     # ---- execute on a trivial problem
     if case["mode"] == "execute":
-        run_execute(case, rep, scratch, s_a, u_b, flag0, sf, cols)
+        run_execute(case, rep, scratch, s_a, u_b, flag0, sfe, cols)
 
 
 def run_execute(case, rep, scratch, s_a, u_b, flag0, sf, cols):
@@ -900,7 +1035,7 @@ def run_execute(case, rep, scratch, s_a, u_b, flag0, sf, cols):
     from gemseo.core.mdo_functions.mdo_function import MDOFunction
 
     algo = case["algo"]
-    ds = build_space(case["space"], flag0, bool(case.get("warm")))
+    ds = build_space(case["space"], flag0, bool(case.get("warm")), case.get("history"))
     calls = []
 
     def f(x):
@@ -1100,6 +1235,25 @@ def directed_cases():
     for form in ("dict2d", "listdict"):
         add("CustomDOE", xny, rows=[[0.25, 0.75, 12, -4.0], [0.5, 1.0, 20, -1.5], [0.0, 0.1, 10, -2.5]], form=form,
             key_order=["y", "n", "x"])
+    # second generation on a design space that was sampled and then edited (domain-reduction loop), both flag values
+    xyk0 = _sp(("x", 2, "float", -1.0, 3.0), ("y", 1, "float", 0.0, 10.0), ("k", 1, "integer", 0, 20))
+    xyk1 = _sp(("x", 2, "float", [-1.0, -1.0], [1.0, 0.0]), ("y", 1, "float", 0.0, 2.0), ("k", 1, "integer", 0, 4))
+    tighten = [{"op": "ub", "name": "x", "value": [1.0, 0.0], "kind": "ub-tighten"},
+               {"op": "ub", "name": "y", "value": [2.0], "kind": "ub-tighten"},
+               {"op": "ub", "name": "k", "value": [4.0], "kind": "ub-tighten"}]
+    xyk2 = _sp(("x", 2, "float", [0.0, 2.0], [3.0, 3.0]), ("y", 1, "float", -5.0, 10.0), ("k", 1, "integer", 18, 25))
+    move = [{"op": "lb", "name": "x", "value": [0.0, 2.0], "kind": "lb-tighten"},
+            {"op": "lb", "name": "y", "value": [-5.0], "kind": "lb-widen"},
+            {"op": "lb", "name": "k", "value": [18.0], "kind": "lb-tighten"},
+            {"op": "ub", "name": "k", "value": [25.0], "kind": "ub-widen"}]
+    for algo, st in (("OT_MONTE_CARLO", {"n_samples": 20, "seed": 3}), ("LHS", {"n_samples": 20, "seed": 3}),
+                     ("Halton", {"n_samples": 20}), ("PYDOE_FULLFACT", {"n_samples": 25}), ("DiagonalDOE", {"n_samples": 11}),
+                     ("OT_AXIAL", {"n_samples": 9}), ("MorrisDOE", {"n_samples": 10}), ("PYDOE_LHS", {"n_samples": 7})):
+        for flag in (True, False):
+            for final, edits in ((xyk1, tighten), (xyk2, move)):
+                for mode in ("compute", "execute"):
+                    out.append({"algo": algo, "space": final, "settings": dict(st), "mode": mode, "int_norm": flag,
+                                "history": {"space0": xyk0, "flag0": flag, "edits": edits}})
     # seen by the C03 check: with normalize_design_space=True the physical samples are unnormalised a second time
     # before being evaluated; the generated design itself is right, so this is recorded as an observation here
     out.append({"algo": "OT_FULLFACT", "space": mixed, "settings": {"n_samples": 16}, "mode": "execute",
